@@ -442,7 +442,7 @@ type PreemptCases struct {
 	Quota   []PreemptQuoCase `json:"quota"`
 }
 
-const preemptRequires = `From YK Require Import Base.Res Preempt.Snapshot Preempt.Victims Preempt.ReqNode Preempt.Quota Oracles.PreemptCheck.
+const preemptRequires = `From YK Require Import Base.Res Preempt.Snapshot Preempt.Victims Preempt.ReqNode Preempt.Quota Preempt.Spec Oracles.PreemptCheck.
 From Coq Require Import List NArith ZArith. Import ListNotations.`
 
 func preemptEngine(o *Opts) {
